@@ -216,7 +216,7 @@ def cookie_cases(rng):
     if v is None:
         return None
     heads, free = v
-    pair = '%s=%s' % (rng.choice(['name', 'SID', 'a']), rng.choice(['value', '31d4d96e407aad42', 'b']))
+    pair = '%s=%s' % (rng.choice(['name', 'SID', 'a']), rng.choice(['value', '31d4d96e407aad42', 'b', '', '']))    # an empty value deletes the cookie
     canon = pair + ''.join('; ' + render_directive(d) for d in free)
     out = []
     for rule, text in spellings(rng, fam, heads, free, 1):
@@ -324,6 +324,12 @@ def spf_cases(rng):
     unk.insert(rng.randint(0, len(unk)), rng.choice(['x-unknown=value', 'moo=%{d}']))
     out.append(('unknown-directive', ' '.join(['v=spf1'] + unk)))
     out.append(('unknown-directive', ' '.join(['v=spf1'] + terms + mods + [rng.choice(['k=v', 'x=', 'n=1'])])))    # a short one, last
+    # an unknown modifier is kept in the record; its macro-string may be empty (RFC 7208 section 12: macro-string = *( ... )), and
+    # the spelling compose writes must still carry the "="
+    if rng.random() < 0.3:
+        tail = ' ' + rng.choice(['x-future=', 'x-future=%{d}', 'n='])
+        canon += tail
+        out = [(rule, text.rstrip(' ') + tail) for rule, text in out]
     return t.DnsRecordTxtValueSpf, canon, out
 
 
